@@ -3,6 +3,7 @@ import argparse
 import io
 import itertools
 import json as real_json
+import os
 import sys
 
 import z3
@@ -331,6 +332,29 @@ def _arg_harnesses():
         def witness(vals, typ=typ, n=n):
             return {"check": "c20.arg", "args": enc({"typ": typ, "text": "".join(chr(vals[f"d{i}"]) for i in range(n))})}
         hs.append(Harness(id=f"C20/arg/{typ}/{n}", vars=vars, pre=pre, run=run, witness=witness, max_paths=20))
+    # string-typed values of length 0..2 (length 0 is the explicit empty value `name:string=`), any printable ASCII character
+    for form in ("name:string=", "name="):
+        for n in (0, 1, 2):
+            Cs = [z3.Int(f"c{i}") for i in range(n)]
+            vars = {f"c{i}": Cs[i] for i in range(n)} or {"dummy": z3.Int("dummy")}
+            pre = [z3.And(c >= 32, c <= 126) for c in Cs]
+
+            def run(vals, form=form, n=n, Cs=Cs):
+                raw = form + "".join(chr(vals[f"c{i}"]) for i in range(n))
+                text = mks(SStr, [z3.IntVal(ord(c)) for c in form] + Cs, raw) if n else form
+                os.environ.pop("name", None)
+                kd, r = common.outcome(lambda: m.arg_type_value(text))
+                if kd != "value":
+                    return [Ob("C20/arg/string-value", z3.BoolVal(False), note=f"{type(r).__name__}: {r}"[:120])]
+                name, tdef, value = r
+                got = cterms(value) if isinstance(value, str) else None
+                ok = z3.BoolVal(False) if got is None or len(got) != n or type(value).__name__ != "StringType" or str.__str__(name) != "name" else \
+                    (z3.And([g == c for g, c in zip(got, Cs)]) if n else z3.BoolVal(True))
+                return [Ob("C20/arg/string-value", ok, note=f"-a {form}<{n} characters> binds exactly that string (got {value!r})"[:160])]
+
+            def witness(vals, form=form, n=n):
+                return {"check": "c20.arg_string", "args": enc({"form": form, "text": "".join(chr(vals[f"c{i}"]) for i in range(n))})}
+            hs.append(Harness(id=f"C20/arg/{form}/{n}", vars=vars, pre=pre, run=run, witness=witness, max_paths=20))
     return hs
 
 
@@ -350,7 +374,7 @@ def extra_validation():
         (["-n", "-b", "1 + 2"], "", 2, []), (["-n", "-b", "1 / 0 == 1"], "", 2, []), (["-n", "1 +"], "", 1, []),
         ([".a"], '{"a": 1}\n{"a": 2}\n', 0, ["1", "2"]), (["-b", ".a > 1"], '{"a": 1}\n{"a": 2}\n', 1, ["false", "true"]),
         ([".a"], '{"a": 1}\nnot json\n{"a": 3}\n', 3, ["1", "3"]), (["-s", ".a"], '{"a":\n 5}', 0, ["5"]),
-        (["-n", "-a", "x:int=41", "x + 1"], "", 0, ["42"]), (["-n", '"s" + "t"'], "", 0, ['"st"']), (["-n", "[1, true, null]"], "", 0, ["[1, true, null]"]),
+        (["-n", "-a", "x:int=41", "x + 1"], "", 0, ["42"]), (["-n", "-a", "s:string=", "s.size()"], "", 0, ["0"]), (["-n", "-b", "-a", "s:string=", 's == ""'], "", 0, []), (["-n", '"s" + "t"'], "", 0, ['"st"']), (["-n", "[1, true, null]"], "", 0, ["[1, true, null]"]),
         (["-n", "[[true]]"], "", 0, ["[[true]]"]), (["-n", "[1, [true, false]]"], "", 0, ["[1, [true, false]]"]), (["-n", "{'k': [[false]], 'n': [1, [2 > 1]]}"], "", 0, ['{"k": [[false]], "n": [1, [true]]}']),
         (["-d", "doc", "doc"], '[[true, false]]\n', 0, ["[[true, false]]"]),
         # numerically equal values of different JSON types in different documents of one stream
